@@ -1,0 +1,7 @@
+//go:build verif
+// +build verif
+
+package optdec
+
+func VerifResetCache()   { programCache.Reset() }
+func VerifCacheLen() int { return programCache.VerifLen() }
